@@ -694,3 +694,51 @@ Definition dialer_lookup (r : router) (named : option string) (control_host host
          (s, match l with LAddrs => 0 | LPassthrough => 300 | LError e => 1000 + e | LNone => 300 end)
   else let '(s, l) := lookup_ip_addr r nm ver bm q in
        (s, match l with LAddrs => 0 | LPassthrough => 301 | LError e => 1000 + e | LNone => if String.eqb nm "" then 301 else 0 end).
+
+(* ================================================================================================ *)
+(* component/dns/upstream.go: UpstreamResolver.GetUpstream — lazy initialisation under concurrent callers *)
+(* ================================================================================================ *)
+(* Every caller that finds the state unset builds its own *Upstream.  dns.New's FinishInitCallback REGISTERS a
+   built upstream in upstream2Index (pointer -> index of the tag); Dns.ResponseSelect later identifies the answering
+   upstream by that pointer and treats an unregistered pointer as "asis".  The slow path as a straight-line program
+   of atomic steps (coq/gen/C07_InitProg.v, read off the source by shape on every run). *)
+Inductive retk := RetOwn | RetPublished.
+Inductive iop :=
+| ILoad                      (* state := u.state.Load(); initialised -> return the published upstream *)
+| IBuild                     (* newUpstreamFunc: this caller's own *Upstream *)
+| IRegister                  (* FinishInitCallback: upstream2Index.Store(own, i) *)
+| IStore                     (* u.state.Store(&upstreamState{own}) *)
+| ICasOrRet (k : retk)       (* if !u.state.CompareAndSwap(state, new) { return k } *)
+| IRet (k : retk).
+
+Record ithread := { t_pc : list iop; t_reg : bool; t_pubd : bool; t_done : option (option nat) }.
+Record istate := { g_pub : option nat; g_regd : list nat; g_thr : nat -> ithread }.
+
+Definition upd (f : nat -> ithread) (i : nat) (th : ithread) : nat -> ithread := fun j => if Nat.eqb j i then th else f j.
+
+(* one atomic step of caller i (its own build is identified with i) *)
+Definition istep (g : istate) (i : nat) : istate :=
+  let th := g_thr g i in
+  match t_done th, t_pc th with
+  | Some _, _ | _, [] => g
+  | None, op :: rest =>
+    let go := fun pub regd reg pubd => {| g_pub := pub; g_regd := regd;
+                 g_thr := upd (g_thr g) i {| t_pc := rest; t_reg := reg; t_pubd := pubd; t_done := None |} |} in
+    let ret := fun v => {| g_pub := g_pub g; g_regd := g_regd g;
+                 g_thr := upd (g_thr g) i {| t_pc := rest; t_reg := t_reg th; t_pubd := t_pubd th; t_done := Some v |} |} in
+    let retv := fun k => match k with RetOwn => Some i | RetPublished => g_pub g end in
+    match op with
+    | ILoad => match g_pub g with Some v => ret (Some v) | None => go (g_pub g) (g_regd g) (t_reg th) (t_pubd th) end
+    | IBuild => go (g_pub g) (g_regd g) (t_reg th) (t_pubd th)
+    | IRegister => go (g_pub g) (i :: g_regd g) true (t_pubd th)
+    | IStore => go (Some i) (g_regd g) (t_reg th) true
+    | ICasOrRet k => match g_pub g with
+                     | None => go (Some i) (g_regd g) (t_reg th) true
+                     | Some _ => ret (retv k)
+                     end
+    | IRet k => ret (retv k)
+    end
+  end.
+Definition irun (g : istate) (sched : list nat) : istate := fold_left istep sched g.
+Definition iinit (p : list iop) : istate :=
+  {| g_pub := None; g_regd := []; g_thr := fun _ => {| t_pc := p; t_reg := false; t_pubd := false; t_done := None |} |}.
